@@ -21,4 +21,4 @@ def run(run):
             continue
         run.explore("%s swap edges" % name, "mc.generic", "shard_swap",
                     generic.shard_plan(name, "pair", run.tier, run.phase, 64))
-    run.require_nonvacuous("sides_differ_in_size", "swap.asymmetric_result_states")
+    run.require_nonvacuous("sides_differ_in_size")      # input side; swap.asymmetric_result_states is reported only
